@@ -4,6 +4,7 @@ package dsstate
 
 import (
 	"context"
+	"errors"
 	"io"
 
 	"github.com/ipfs/ipfs-cluster/api"
@@ -23,6 +24,8 @@ var _ state.State = (*State)(nil)
 var _ state.BatchingState = (*BatchingState)(nil)
 
 var logger = logging.Logger("dsstate")
+
+var errNotAState = errors.New("not a serialized state: entry without a key")
 
 // State implements the IPFS Cluster "state" interface by wrapping
 // a go-datastore and choosing how api.Pin objects are stored
@@ -213,18 +216,29 @@ func (st *State) Marshal(w io.Writer) error {
 // Unmarshal reads and parses a previous dump of the state.
 // All the parsed key/values are added to the store. Any values
 // existing in the state's namespace are removed first, so that the
-// result is exactly the unmarshaled state.
+// result is exactly the unmarshaled state. Input that is not a dump of a
+// state (an entry without a key) is refused and leaves the state untouched.
 func (st *State) Unmarshal(r io.Reader) error {
-	results, err := st.dsRead.Query(query.Query{
+	dec := codec.NewDecoder(r, st.codecHandle)
+
+	// Look at the first entry before touching the store: go-libp2p-raft
+	// hands us log entries it cannot decode as operations, to try them as
+	// state rollbacks.
+	entry, err := decodeEntry(dec)
+	if err != nil && err != io.EOF {
+		return err
+	}
+
+	results, qerr := st.dsRead.Query(query.Query{
 		Prefix:   st.namespace.String(),
 		KeysOnly: true,
 	})
-	if err != nil {
-		return err
+	if qerr != nil {
+		return qerr
 	}
-	existing, err := results.Rest()
-	if err != nil {
-		return err
+	existing, qerr := results.Rest()
+	if qerr != nil {
+		return qerr
 	}
 	for _, e := range existing {
 		if err := st.dsWrite.Delete(ds.NewKey(e.Key)); err != nil {
@@ -232,23 +246,31 @@ func (st *State) Unmarshal(r io.Reader) error {
 		}
 	}
 
-	dec := codec.NewDecoder(r, st.codecHandle)
-	for {
-		var entry serialEntry
-		if err := dec.Decode(&entry); err == io.EOF {
-			break
-		} else if err != nil {
-			return err
-		}
+	for err == nil {
 		k := st.namespace.Child(ds.NewKey(entry.Key))
-		err := st.dsWrite.Put(k, entry.Value)
-		if err != nil {
+		if err := st.dsWrite.Put(k, entry.Value); err != nil {
 			logger.Error("error adding unmarshaled key to datastore:", err)
 			return err
 		}
+		entry, err = decodeEntry(dec)
 	}
-
+	if err != io.EOF {
+		return err
+	}
 	return nil
+}
+
+// decodeEntry reads the next entry of a serialized state. Any msgpack map
+// decodes into an entry, so one without a key is not ours.
+func decodeEntry(dec *codec.Decoder) (*serialEntry, error) {
+	var entry serialEntry
+	if err := dec.Decode(&entry); err != nil {
+		return nil, err
+	}
+	if entry.Key == "" {
+		return nil, errNotAState
+	}
+	return &entry, nil
 }
 
 // used to be on go-ipfs-ds-help
